@@ -78,6 +78,13 @@ let handle (toks : string list) : string =
   | ["discreason"; payload] ->
     let n = disc_reason (bytes_of_hex payload) in
     hex_of_n n ^ " " ^ (if disc_reason_named n then "named" else "unknown")
+  | ["hdec"; code; size; payload] ->
+    (match handle_decode (n_of_string code) (n_of_string size) (bytes_of_hex payload) with
+     | HdTooLarge -> "toolarge" | HdExtraStatus -> "extrastatus" | HdInvalidCode -> "invalid" | HdNotTyped -> "nottyped"
+     | HdReject -> "reject" | HdAccept (_, c) -> "accept " ^ string_of_int (List.length c))
+  | ["markknown"; which; card; already; self] ->
+    let mx = if which = "blocks" then max_known_blocks else max_known_txs in
+    dec (mark_known mx (n_of_string card) (bool_of_tok already) (bool_of_tok self))
   | ["headers"; a; av] -> dec (headers_served (n_of_string a) (n_of_string av))
   | ["bufsize"; f] -> dec (frame_buf_size (n_of_string f))
   | ["declen"; h] -> (match snappy_declen (bytes_of_hex h) with Some n -> "ok " ^ dec n | None -> "err")
@@ -97,6 +104,16 @@ let handle (toks : string list) : string =
      | ROk (code, payload, st', rest) ->
        "ok " ^ hex_of_n code ^ " " ^ hex_of_bytes payload ^ " " ^ dec st'.r_pos ^ " " ^ hex_of_bytes st'.r_mac
        ^ " " ^ hex_of_bytes rest)
+  | ["freadio"; sn; pos; mac; stream; ks; aes; stab] ->
+    (* ReadMsg with its I/O account: result class, bytes consumed, buffer bytes requested, declared size *)
+    let st = { r_pos = n_of_string pos; r_mac = bytes_of_hex mac } in
+    let (res, io) = read_msg_io keccak256 (aes_of (table aes)) (ks_of ks) (snappy_dec_of (table stab)) (bool_of_tok sn) st
+        (bytes_of_hex stream) in
+    (match res with
+     | RErr e -> "err " ^ rerr_s e
+     | ROk (code, payload, _, _) -> "ok " ^ hex_of_n code ^ " " ^ dec (n_of_int (List.length payload)))
+    ^ " consumed=" ^ dec io.io_consumed ^ " alloc=" ^ dec io.io_alloc
+    ^ " declared=" ^ (match io.io_declared with None -> "-" | Some f -> dec f)
   | ["freadn"; sn; n; pos; mac; stream; ks; aes; stab] ->
     (* a whole session: read_n — the values a session delivers, and how it ended *)
     let st = { r_pos = n_of_string pos; r_mac = bytes_of_hex mac } in
